@@ -232,11 +232,14 @@ class GriffeLoader:
             self.expand_wildcards(wildcards_module, external=external)
 
         load_failures: set[str] = set()
-        while unresolved and unresolved != prev_unresolved and iteration < max_iterations:  # type: ignore[operator]
+        packages = 0  # Number of packages at the start of the last iteration.
+        # Loading a package during an iteration is progress too: the aliases pointing into it are still to be tried.
+        while unresolved and (unresolved != prev_unresolved or len(collection) > packages) and iteration < max_iterations:  # type: ignore[operator]
             prev_unresolved = unresolved - {"0"}
             unresolved = set()
             resolved: set[str] = set()
             iteration += 1
+            packages = len(collection)
             for module_name in list(collection.keys()):
                 module = collection[module_name]
                 next_resolved, next_unresolved = self.resolve_module_aliases(
